@@ -251,6 +251,7 @@ type fnEnc struct {
 	deferSt  map[*ssa.Defer]string
 	onReturn func(st *state, res []tval)
 	specConsts map[string]string
+	freevars map[string]tval // captured variables: name -> address of the variable
 }
 
 type inputVar struct {
@@ -519,10 +520,15 @@ func (V *Verifier) encodeFunction(fn *ssa.Function, fc *FuncContract) (enc *fnEn
 		e.params[p.Name()] = tval{term: t, typ: p.Type()}
 		e.inputs = append(e.inputs, inputVar{p.Name(), t, p.Type()})
 	}
+	e.freevars = map[string]tval{}
 	for _, fv := range fn.FreeVars {
 		t := e.declareInput(st, "fv_"+fv.Name(), fv.Type())
 		e.vals[fv] = t
-		e.params[fv.Name()] = tval{term: t, typ: fv.Type()}
+		e.freevars[fv.Name()] = tval{term: t, typ: fv.Type()}
+		// a captured variable lives in an allocated cell
+		if _, isPtr := fv.Type().Underlying().(*types.Pointer); isPtr {
+			e.assume(st, not(eq(t, "null")))
+		}
 	}
 	e.assumeGlobalFacts(st)
 	// requires
@@ -1102,6 +1108,9 @@ func (e *fnEnc) modifiedTypes(c *ssa.CallCommon) (ts []types.Type, ok bool) {
 	en := e.calleeEnv(scratch, scratch, c, e.staticCallee(c), args)
 	for _, m := range fc.Modifies {
 		for _, ma := range en.modAddrs(m) {
+			if ma.mapObj != "" {
+				return nil, false
+			}
 			ts = append(ts, ma.typ)
 		}
 	}
